@@ -168,17 +168,17 @@ theorem IdAux.wf_removeNodes (G : MG Name) (S : List Name) : (G.removeNodes S).W
 /-- members of the single district of `G ∖ X` are exactly the nodes outside `X` -/
 theorem single_gx (hv : Valid I) {S : List Name} (hS : (I.G.removeNodes I.X).districts = [S]) (v : Name) :
     v ∈ S ↔ v ∈ I.G.nodes ∧ v ∉ I.X := by
-  rw [single_district_all (wf_removeNodes _ _) hS v, mem_nodes_removeNodes I.G hv.wf]
+  rw [single_district_all (IdAux.wf_removeNodes _ _) hS v, mem_nodes_removeNodes I.G hv.wf]
 
 /-- line 7's district: the single district `S` of `G ∖ X` lies inside one district of `G` -/
 theorem exists_super_district (hv : Valid I) {S : List Name} (hS : (I.G.removeNodes I.X).districts = [S]) :
     ∃ D ∈ I.G.districts, ∀ v ∈ S, v ∈ D := by
   have hSm : S ∈ (I.G.removeNodes I.X).districts := by rw [hS]; simp
-  obtain ⟨s, hs⟩ := List.exists_mem_of_ne_nil _ (districts_nonempty _ (wf_removeNodes _ _) S hSm)
+  obtain ⟨s, hs⟩ := List.exists_mem_of_ne_nil _ (districts_nonempty _ (IdAux.wf_removeNodes _ _) S hSm)
   have hsV : s ∈ I.G.nodes := ((single_gx hv hS s).mp hs).1
   obtain ⟨D, hD, hsD⟩ := (districts_cover I.G hv.wf s).mp hsV
   refine ⟨D, hD, fun v hvS => ?_⟩
-  have h1 := (districts_spec _ (wf_removeNodes _ _) S hSm s hs v).mp hvS
+  have h1 := (districts_spec _ (IdAux.wf_removeNodes _ _) S hSm s hs v).mp hvS
   have h2 : I.G.SameDistrict s v :=
     sameDistrict_mono (fun a b hab => ((biEdge_removeNodes I.G I.X a b).mp hab).1) h1
   exact (districts_spec I.G hv.wf D hD s hsD v).mpr h2
@@ -345,7 +345,7 @@ theorem l7_productSafe_prod (hv : Valid I) {S D order : List Name} {fs : List Ex
     exact ⟨h1, h2⟩
   · rw [← forall₂_length hF]
     have hSm : S ∈ (I.G.removeNodes I.X).districts := by rw [hS]; simp
-    obtain ⟨s, hs⟩ := List.exists_mem_of_ne_nil _ (districts_nonempty _ (wf_removeNodes _ _) S hSm)
+    obtain ⟨s, hs⟩ := List.exists_mem_of_ne_nil _ (districts_nonempty _ (IdAux.wf_removeNodes _ _) S hSm)
     have : ∃ d ∈ D, d ∉ S := by
       by_contra hc
       have : subset' D S = true := subset'_iff.mpr (fun a ha => by
@@ -392,7 +392,7 @@ theorem step_good (hv : Valid I) {s : Step} (h : step topo I = .ok s) : GoodStep
     intro J hJ
     simp only [List.mem_map] at hJ
     obtain ⟨S, hS, rfl⟩ := hJ
-    have hwfx := wf_removeNodes I.G I.X
+    have hwfx := IdAux.wf_removeNodes I.G I.X
     have hSV : ∀ v ∈ S, v ∈ I.G.nodes ∧ v ∉ I.X := fun v hvS =>
       (mem_nodes_removeNodes I.G hv.wf I.X v).mp (mem_nodes_of_mem_district hwfx hS hvS)
     refine ⟨⟨hv.wf, hv.ranked, fun y hy => (hSV y hy).1, districts_nonempty _ hwfx S hS, ?_, hv.plain⟩, ?_⟩
